@@ -483,8 +483,17 @@ func (fx *FnExec) applyContract(fr *frame, st *State, fc *FuncContract, callee *
 	}
 	post := mkEnv(st, old)
 	for _, en := range fc.Ensures {
+		if fx.eng.mentionsCallTrace(en.Expr) {
+			// the clause speaks about calls made INSIDE the callee; it is meaningless in the caller's trace
+			continue
+		}
 		g := fx.evalCallClause(post, en, "ensures of "+key)
 		fx.assume(st, g)
+	}
+	for _, en := range fc.Defines {
+		g := fx.evalCallClause(post, en, "defines of "+key)
+		fx.assume(st, g)
+		fx.note("definitional clause of " + key + " (introduces a specification notion, not checked against the body): " + en.Src)
 	}
 	if fc.NoReturn {
 		st.pc = c.False()
@@ -519,6 +528,27 @@ func (fx *FnExec) havocLoc(env *CEnv, old, st *State, x *CExpr) []func() {
 	c := fx.c
 	// forms: p.f   *p   p.*   s[..] / s[i:j]   ghost   p.$ghost
 	switch x.Op {
+	case "call":
+		if x.Name == "mapof" && len(x.Args) == 1 {
+			// the entries of one Go map
+			mv := env.Eval(x.Args[0])
+			mt, ok := mapTypeOf(mv.T)
+			mref, ok2 := mv.V.(*Term)
+			if !ok || !ok2 {
+				env.fail("modifies mapof(%s): Go map expected", exprString(x.Args[0]))
+			}
+			if !fx.mapModelled(mt) {
+				return nil
+			}
+			return []func(){func() {
+				dk, dom := fx.mapDom(st, mt)
+				fx.setFamily(st, dk, c.Store(dom, mref, c.Fresh("mod.mapdom", dom.Sort.Elem)))
+				for _, lf := range leavesOf(mt.Elem()) {
+					vk, vf := fx.mapValFam(st, mt, lf)
+					fx.setFamily(st, vk, c.Store(vf, mref, c.Fresh("mod.mapval", vf.Sort.Elem)))
+				}
+			}}
+		}
 	case "paren":
 		return fx.havocLoc(env, old, st, x.Args[0])
 	case "ident":
@@ -642,7 +672,7 @@ func (fx *FnExec) havocObj(st *State, t types.Type, ref *Term) []func() {
 // havocRange forgets elements [off, off+n) of a backing array.
 func (fx *FnExec) havocRange(st *State, et types.Type, ref, off, n *Term) {
 	c := fx.c
-	if isObjT(et) || singleSort(et) == nil {
+	if isElemObj(et) || singleSort(et) == nil {
 		fx.havocBacking(st, et, ref)
 		return
 	}
@@ -752,6 +782,7 @@ func (eng *Engine) VerifyFunc(fn *ssa.Function, opts ExecOpts) (rep *FuncReport)
 	}
 	fx := eng.newExec(opts)
 	fx.pureMode = fc != nil && fc.Pure && !fc.Assumed
+	fx.atomicLocks = fc != nil && fc.Atomic
 	rep = &FuncReport{Key: key, HasContract: fc != nil, fx: fx}
 	defer func() {
 		if r := recover(); r != nil {
